@@ -82,9 +82,20 @@ theorem dpartVals_ok (env : Env) (ps : List DPart) (h : ps.all dpartOk = true) :
 
 /-! ## expand.Literal -/
 
-/-- expand.Literal: quote removal is right unless an unquoted literal contains a backslash (or NUL) -/
-theorem literal_spec_partial' (env : Env) (parts : List Part)
-    (h : ∀ p ∈ parts, (∀ s, p = .lit s → s.contains 92 = false ∧ s.contains 0 = false) ∧
+theorem unbackslash_nonul (s : Bytes) (h : s.contains 0 = false) : (unbackslash s).contains 0 = false := by
+  fun_induction unbackslash s with
+  | case1 => rfl
+  | case2 b => exact h
+  | case3 b c rest hb ih =>
+    simp only [List.contains_cons, Bool.or_eq_false_iff] at h ⊢
+    exact ⟨h.2.1, ih h.2.2⟩
+  | case4 b c rest hb ih =>
+    simp only [List.contains_cons, Bool.or_eq_false_iff] at h ⊢
+    exact ⟨h.1, ih (by simp only [List.contains_cons, Bool.or_eq_false_iff]; exact h.2)⟩
+
+/-- expand.Literal is quote removal (source text holds no NUL byte). -/
+theorem literal_spec' (env : Env) (parts : List Part)
+    (h : ∀ p ∈ parts, (∀ s, p = .lit s → s.contains 0 = false) ∧
                       (∀ ps, p = .dbl ps → ps.all dpartOk = true)) :
     literal env parts = posixLiteral env parts := by
   unfold literal posixLiteral
@@ -94,8 +105,29 @@ theorem literal_spec_partial' (env : Env) (parts : List Part)
   obtain ⟨h1, h2⟩ := h p hp
   cases p with
   | lit s =>
+    simp only [literalVal, posixLiteralVal, if_true]
+    rw [takeWhile_ne0 _ (unbackslash_nonul s (h1 s rfl))]
+  | dbl ps =>
+    rw [posixLiteralVal_dbl]
+    simp only [literalVal]
+    rw [dpartVals_ok env ps (h2 ps rfl)]
+  | _ => rfl
+
+/-- literalKeepEscapes differs from quote removal exactly by keeping the backslashes of unquoted
+    literals: it agrees when there are none. -/
+theorem literalKeepEscapes_spec' (env : Env) (parts : List Part)
+    (h : ∀ p ∈ parts, (∀ s, p = .lit s → s.contains 92 = false ∧ s.contains 0 = false) ∧
+                      (∀ ps, p = .dbl ps → ps.all dpartOk = true)) :
+    literalKeepEscapes env parts = posixLiteral env parts := by
+  unfold literalKeepEscapes posixLiteral
+  congr 1
+  apply List.map_congr_left
+  intro p hp
+  obtain ⟨h1, h2⟩ := h p hp
+  cases p with
+  | lit s =>
     obtain ⟨a, b⟩ := h1 s rfl
-    simp only [literalVal, posixLiteralVal]
+    simp only [literalVal, posixLiteralVal, Bool.false_eq_true, if_false]
     rw [takeWhile_ne0 s b, unbackslash_no92 s a]
   | dbl ps =>
     rw [posixLiteralVal_dbl]
